@@ -392,6 +392,16 @@ func NewPairNamed(s *Sim, n *SimNet, cs, ss EpSpec, env *Env, cname, sname strin
 		env = &Env{}
 	}
 	env.Sim = s
+	// the emission budget is a storm detector, not a cost model: a flight costs ~1/MTU datagrams
+	// (a DTLS 1.3 hello with a hybrid key share alone is 25 datagrams at MTU 64), so it scales
+	for _, m := range []int{cs.MTU, ss.MTU} {
+		if m > 0 && m < 1200 && s.MaxEmits > 0 && s.MaxEmits < 2500*1500/m {
+			s.MaxEmits = 2500 * 1500 / m
+		}
+		if f := int64(min(10, 1500/max(m, 1))); m > 0 && m < 1200 && s.MaxSteps > 0 && s.MaxSteps < 120_000*f {
+			s.MaxSteps = 120_000 * f
+		}
+	}
 	p := &Pair{S: s, Net: n, CSpec: cs, SSpec: ss, CAddr: Addr(1, 5000), SAddr: Addr(2, 4444), CName: cname, SName: sname, Env: env}
 	p.CSock = n.NewConn(cname, p.CAddr)
 	p.SSock = n.NewConn(sname, p.SAddr)
